@@ -39,6 +39,7 @@ RULE_TEXT = (
     'while another app points at its models). Non-trivial = the evolution '
     'contains a rename/delete and a relation points at or from the touched '
     'model; distinct = mutation kinds + relation topology digest.')
+RULE_TEXT += ' Half of the app_label scenarios have a bystander app whose label starts with the renamed label; kind "pk_rename" (1 in 16): a primary key that models of both apps point at is renamed and the referencing tables are rebuilt afterwards, stepwise or in one run.'
 ASSUMPTIONS = [
     'a relation to an explicitly deleted model may dangle (the property '
     'exempts it); the generator deletes referrers first',
